@@ -1229,3 +1229,230 @@ Proof.
     as [[_ ->] | [(_ & _ & ->) | (a & c & b & _ & Hc & _ & ->)]]; auto.
   right. right. exists a, c. split; [exact Hc|]. destruct (is_nil b); auto.
 Qed.
+
+(* ====================================================================== E: only the text modulo line-edge blanks matters *)
+Definition is_cmt (l : list Z) : bool := starts2 DASH l || starts2 SLASH l.
+
+(* leading edge of a line: its blanks are layout when the line is blank or a comment line *)
+Definition lnorm (l : list Z) : list Z :=
+  let s := lstrip l in if is_nil s || is_cmt s then s else l.
+
+(* The lines of a run with the edge blanks removed: trailing blanks of every line that is followed by
+   a line feed; leading blanks of every line after the first (and of the first one at the start of
+   the file) when the line is blank or begins with a comment.  Leading blanks of other lines are
+   kept: such a line continues a multi-line comment, its text is token content. *)
+Definition edge_strip (at_start : bool) (L : list (list Z)) : list (list Z) :=
+  match L with
+  | [] => []
+  | l0 :: ls =>
+    (let h := if is_nil ls then l0 else rstrip l0 in if at_start then lnorm h else h)
+    :: map_last (fun last l => lnorm (if last then l else rstrip l)) ls
+  end.
+
+Definition strip_line_edges (at_start : bool) (s : list Z) : list Z :=
+  joinl (edge_strip at_start (split_nl s)).
+
+(* one line of the tail, all substitutions at once *)
+(* the two comment rules after one another *)
+Definition reind2 (ind l : list Z) : list Z := reind SLASH ind (reind DASH ind l).
+
+Definition tail_line (ind : list Z) (last : bool) (l : list Z) : list Z :=
+  indent_last ind last (reind2 ind (if last then l else rstrip l)).
+
+Lemma map_map_last g f ls : map g (map_last f ls) = map_last (fun b l => g (f b l)) ls.
+Proof. induction ls as [|l r IH]; [reflexivity|]. cbn [map_last map]. f_equal. exact IH. Qed.
+
+Lemma is_nil_map_last f ls : is_nil (map_last f ls) = is_nil ls.
+Proof. destruct ls; reflexivity. Qed.
+
+Lemma map_last_map_last f g ls :
+  map_last f (map_last g ls) = map_last (fun b l => f b (g b l)) ls.
+Proof.
+  induction ls as [|l r IH]; [reflexivity|]. cbn [map_last]. rewrite is_nil_map_last. f_equal. exact IH.
+Qed.
+
+Lemma map_last_ext f g ls : (forall b l, f b l = g b l) -> map_last f ls = map_last g ls.
+Proof. intros H. induction ls as [|l r IH]; [reflexivity|]. cbn [map_last]. rewrite H, IH. reflexivity. Qed.
+
+Lemma fmt_tail_lines cfg ls : fmt_tail cfg ls = map_last (tail_line (indent_bytes cfg)) ls.
+Proof.
+  unfold fmt_tail, map_init. rewrite !map_map_last, map_last_map_last. apply map_last_ext.
+  intros b l. unfold tail_line. destruct b; reflexivity.
+Qed.
+
+Lemma rstrip_fixed l : ends_sp l = false -> rstrip l = l.
+Proof.
+  induction l as [|c l IH]; intros H; [reflexivity|]. cbn [rstrip].
+  destruct (forallb is_sp (c :: l)) eqn:F.
+  - exfalso. clear IH. revert c H F. induction l as [|d l IHl]; intros c H F.
+    + cbn in *. rewrite andb_true_r in F. unfold is_sp in F. congruence.
+    + cbn [forallb] in F. apply andb_true_iff in F. destruct F as [_ F]. apply (IHl d); [exact H | exact F].
+  - f_equal. apply IH. destruct l; [reflexivity | exact H].
+Qed.
+
+Lemma rstrip_idem l : rstrip (rstrip l) = rstrip l.
+Proof. apply rstrip_fixed, ends_sp_rstrip. Qed.
+
+Lemma rstripped_blank l : ends_sp l = false -> lstrip l = [] -> l = [].
+Proof.
+  intros H E. apply all_sp_lstrip in E. rewrite <- (rstrip_fixed l H). apply rstrip_all_sp. exact E.
+Qed.
+
+Lemma starts2_D_not_S l : starts2 DASH l = true -> starts2 SLASH l = false.
+Proof.
+  destruct l as [|a [|b t]]; try discriminate. cbn [starts2]. rewrite !andb_true_iff, !Z.eqb_eq.
+  intros [-> _]. reflexivity.
+Qed.
+
+Lemma lstrip_ind n l : lstrip (repeat SP n ++ l) = lstrip l.
+Proof. apply lstrip_repeat_app. Qed.
+
+Lemma reind2_spec n l :
+  reind2 (repeat SP n) l = if is_cmt (lstrip l) then repeat SP n ++ lstrip l else l.
+Proof.
+  unfold reind2, reind at 2, is_cmt. destruct (starts2 DASH (lstrip l)) eqn:D; cbn [orb].
+  - unfold reind. rewrite lstrip_ind, lstrip_idem, (starts2_D_not_S _ D). reflexivity.
+  - unfold reind. destruct (starts2 SLASH (lstrip l)); reflexivity.
+Qed.
+
+Lemma reind2_lnorm n l : ends_sp l = false \/ lstrip l <> [] ->
+  reind2 (repeat SP n) (lnorm l) = reind2 (repeat SP n) l.
+Proof.
+  intros H. rewrite !reind2_spec. unfold lnorm.
+  destruct (lstrip l) as [|a t] eqn:E.
+  - cbn [is_nil orb]. destruct H as [H | H]; [|congruence].
+    rewrite (rstripped_blank l H E). reflexivity.
+  - cbn [is_nil orb]. destruct (is_cmt (a :: t)) eqn:C.
+    + rewrite <- E, lstrip_idem, E, C. reflexivity.
+    + rewrite E, C. reflexivity.
+Qed.
+
+Lemma ends_sp_lnorm l : ends_sp l = false -> ends_sp (lnorm l) = false.
+Proof.
+  intros H. unfold lnorm. destruct (is_nil (lstrip l) || is_cmt (lstrip l)); [apply ends_sp_lstrip|]; exact H.
+Qed.
+
+Lemma tail_line_lnorm n last l :
+  tail_line (repeat SP n) last (lnorm (if last then l else rstrip l)) = tail_line (repeat SP n) last l.
+Proof.
+  unfold tail_line. destruct last.
+  - (* the last line: blanks before the end of the run *)
+    destruct (lstrip l) eqn:E.
+    + assert (Hn : lnorm l = []) by (unfold lnorm; rewrite E; reflexivity).
+      rewrite Hn. rewrite !reind2_spec, E. cbn [lstrip span_p snd is_cmt starts2 orb].
+      unfold indent_last. cbn [andb forallb]. rewrite (proj2 (all_sp_lstrip l) E). reflexivity.
+    + rewrite reind2_lnorm by (right; congruence). reflexivity.
+  - rewrite rstrip_fixed by (apply ends_sp_lnorm, ends_sp_rstrip).
+    rewrite reind2_lnorm by (left; apply ends_sp_rstrip). reflexivity.
+Qed.
+
+Lemma fmt_tail_edge cfg at_start l0 ls :
+  fmt_tail cfg (tl (edge_strip at_start (l0 :: ls))) = fmt_tail cfg ls.
+Proof.
+  cbn [edge_strip tl]. rewrite !fmt_tail_lines, map_last_map_last. apply map_last_ext.
+  intros b l. unfold indent_bytes. apply tail_line_lnorm.
+Qed.
+
+Lemma head_xx_blank x rep l : lstrip l = [] -> head_xx x rep l = l.
+Proof. intros E. unfold head_xx. rewrite E. reflexivity. Qed.
+
+Lemma head_xx_lstrip x rep l : starts2 x (lstrip l) = true -> head_xx x rep (lstrip l) = head_xx x rep l.
+Proof. intros S. unfold head_xx. rewrite lstrip_idem, S. reflexivity. Qed.
+
+Lemma lstrip_head_xx_other x y rep l : starts2 y (lstrip l) = true -> starts2 x (lstrip l) = false ->
+  head_xx x rep l = l.
+Proof. intros _ S. unfold head_xx. rewrite S. reflexivity. Qed.
+
+Definition head_start (l : list Z) : list Z :=
+  head_xx SLASH [SLASH; SLASH] (head_xx DASH [DASH; DASH] l).
+
+Lemma head_start_spec l :
+  head_start l = if is_cmt (lstrip l) then lstrip l else l.
+Proof.
+  unfold head_start, is_cmt. destruct (starts2 DASH (lstrip l)) eqn:D; cbn [orb].
+  - assert (E1 : head_xx DASH [DASH; DASH] l = lstrip l).
+    { unfold head_xx. rewrite D. destruct (lstrip l) as [|a [|b t]]; try discriminate.
+      cbn [starts2] in D. apply andb_true_iff in D. destruct D as [Da Db]. apply Z.eqb_eq in Da, Db. subst.
+      reflexivity. }
+    rewrite E1. unfold head_xx. rewrite lstrip_idem, (starts2_D_not_S _ D). reflexivity.
+  - assert (E1 : head_xx DASH [DASH; DASH] l = l) by (unfold head_xx; rewrite D; reflexivity).
+    rewrite E1. unfold head_xx. destruct (starts2 SLASH (lstrip l)) eqn:S; [|reflexivity].
+    destruct (lstrip l) as [|a [|b t]]; try discriminate.
+    cbn [starts2] in S. apply andb_true_iff in S. destruct S as [Sa Sb]. apply Z.eqb_eq in Sa, Sb. subst.
+    reflexivity.
+Qed.
+
+Lemma head_start_lnorm l : ends_sp l = false \/ lstrip l <> [] -> head_start (lnorm l) = head_start l.
+Proof.
+  intros H. rewrite !head_start_spec. unfold lnorm.
+  destruct (lstrip l) as [|a t] eqn:E.
+  - cbn [is_nil orb]. destruct H as [H | H]; [|congruence]. rewrite (rstripped_blank l H E). reflexivity.
+  - cbn [is_nil orb]. destruct (is_cmt (a :: t)) eqn:C.
+    + rewrite <- E, lstrip_idem, E, C. reflexivity.
+    + rewrite E, C. reflexivity.
+Qed.
+
+Lemma is_nil_tl_edge at_start l0 ls : is_nil (tl (edge_strip at_start (l0 :: ls))) = is_nil ls.
+Proof. cbn [edge_strip tl]. apply is_nil_map_last. Qed.
+
+Lemma all_sp_head_start l : forallb is_sp l = true -> head_start l = l.
+Proof.
+  intros H. apply all_sp_lstrip in H. rewrite head_start_spec, H. reflexivity.
+Qed.
+
+Lemma fmt_lines_edge cfg l0 ls :
+  fmt_lines cfg (hd [] (edge_strip (f_at_start cfg) (l0 :: ls))) (tl (edge_strip (f_at_start cfg) (l0 :: ls)))
+  = fmt_lines cfg l0 ls.
+Proof.
+  unfold fmt_lines. rewrite fmt_tail_edge. unfold fmt_head. rewrite is_nil_tl_edge.
+  cbn [edge_strip hd]. fold (head_start (if is_nil ls then l0 else rstrip l0)).
+  destruct (f_at_start cfg) eqn:A.
+  - fold (head_start (if is_nil ls then lnorm (if is_nil ls then l0 else rstrip l0)
+                      else rstrip (lnorm (if is_nil ls then l0 else rstrip l0)))).
+    f_equal. destruct (is_nil ls) eqn:N.
+    + (* a single line *)
+      assert (Ht : fmt_tail cfg ls = []) by (destruct ls; [reflexivity | discriminate]).
+      rewrite Ht. unfold dollar_head. cbn [is_nil orb]. rewrite !andb_true_r.
+      destruct (lstrip l0) eqn:E.
+      * assert (Hn : lnorm l0 = []) by (unfold lnorm; rewrite E; reflexivity).
+        rewrite Hn. rewrite (all_sp_head_start l0) by (apply all_sp_lstrip; exact E).
+        cbn. rewrite (proj2 (all_sp_lstrip l0) E). reflexivity.
+      * rewrite head_start_lnorm by (right; congruence). reflexivity.
+    + rewrite rstrip_fixed by (apply ends_sp_lnorm, ends_sp_rstrip).
+      rewrite head_start_lnorm by (left; apply ends_sp_rstrip). reflexivity.
+  - f_equal. destruct (is_nil ls); [reflexivity|]. rewrite rstrip_idem. reflexivity.
+Qed.
+
+Lemma noNL_lnorm l : noNL l -> noNL (lnorm l).
+Proof. intros H. unfold lnorm. destruct (_ || _); [apply lstrip_noNL|]; exact H. Qed.
+
+Lemma noNL_edge_strip a L : Forall noNL L -> Forall noNL (edge_strip a L).
+Proof.
+  intros H. destruct L as [|l0 ls]; [constructor|]. inversion H; subst. cbn [edge_strip]. constructor.
+  - assert (noNL (if is_nil ls then l0 else rstrip l0))
+      by (destruct (is_nil ls); [assumption | apply noNL_rstrip; assumption]).
+    destruct a; [apply noNL_lnorm|]; assumption.
+  - apply Forall_map_last; [|assumption]. intros b l Hl. apply noNL_lnorm.
+    destruct b; [assumption | apply noNL_rstrip; assumption].
+Qed.
+
+Theorem fmt_run_depends_on_norm cfg r1 r2 :
+  strip_line_edges (f_at_start cfg) (canon_ws r1) = strip_line_edges (f_at_start cfg) (canon_ws r2) ->
+  fmt_run cfg r1 = fmt_run cfg r2.
+Proof.
+  unfold strip_line_edges. intros H.
+  destruct (split_nl (canon_ws r1)) as [|a1 t1] eqn:S1; [destruct (split_nl_nonempty _ S1)|].
+  destruct (split_nl (canon_ws r2)) as [|a2 t2] eqn:S2; [destruct (split_nl_nonempty _ S2)|].
+  pose proof (split_nl_noNL (canon_ws r1)) as N1. rewrite S1 in N1.
+  pose proof (split_nl_noNL (canon_ws r2)) as N2. rewrite S2 in N2.
+  apply (f_equal split_nl) in H.
+  assert (E1 : exists x y, edge_strip (f_at_start cfg) (a1 :: t1) = x :: y) by (eexists _, _; reflexivity).
+  assert (E2 : exists x y, edge_strip (f_at_start cfg) (a2 :: t2) = x :: y) by (eexists _, _; reflexivity).
+  destruct E1 as (x1 & y1 & E1). destruct E2 as (x2 & y2 & E2).
+  pose proof (noNL_edge_strip (f_at_start cfg) _ N1) as M1.
+  pose proof (noNL_edge_strip (f_at_start cfg) _ N2) as M2.
+  rewrite E1 in H, M1. rewrite E2 in H, M2. rewrite !split_joinl in H by assumption.
+  rewrite (fmt_run_lines cfg r1 a1 t1 S1), (fmt_run_lines cfg r2 a2 t2 S2).
+  rewrite <- (fmt_lines_edge cfg a1 t1), <- (fmt_lines_edge cfg a2 t2).
+  rewrite E1, E2, H. reflexivity.
+Qed.
